@@ -579,6 +579,11 @@ func c01Units(tier string) []hx.Unit {
 		full("len2/seq", []bool{false, false}, 0),
 		full("len2/conc", []bool{false, true}, concBound),
 	}
+	if tier != "thorough" {
+		// three sequential runs on reduced alphabets (a failed or refused run between two others)
+		classes = append(classes, c01Class{name: "len3/seq-seq", conc: []bool{false, false, false}, slots: slots, vals: fewVals, first: fewVals, dataKinds: someData,
+			signKinds: []int{c01SignAll, c01SignErr}, subKinds: allSub, bound: 0, split: 2})
+	}
 	if tier == "thorough" {
 		// three sequential runs: full outcome alphabet, validators of the later runs from 4 representative duties
 		c := full("len3/seq-seq", []bool{false, false, false}, 0)
@@ -639,7 +644,7 @@ func init() {
 		ID:    "C01",
 		Title: "A validator never attests twice in an epoch, and only for its duty epoch",
 		Rule: "slotsPerEpoch=2, validators {1,2,3}, slots 2,3 (epoch 1), 4 (epoch 2), 6 (epoch 3); a run = Attest(slot, duty validators: any non-empty subset, or [1,1,2]); per run, chosen where the run reaches the seam: data in {good, wrong slot, source>target, target>epoch(slot), target<epoch(slot), fetch error}, signer in {signs all, error, zero signature for one}, submit in {ok, error}. " +
-			"quick: all histories of 1 and 2 runs (first run's validators canonical up to renaming), sequential, and the 2 runs started at the same instant with every interleaving of <=1 preemption; " +
+			"quick: all histories of 1 and 2 runs (first run's validators canonical up to renaming), sequential, and the 2 runs started at the same instant with every interleaving of <=1 preemption; sequential histories of 3 runs on reduced alphabets (duties {1},{1,2}; data good/target<epoch/error; signer all/error); " +
 			"thorough: <=2 preemptions for the overlapping pair; all sequential histories of 3 runs (later runs' duties from {1},{1,2},{2,3},[1,1,2]); 3 runs with one or two overlaps on reduced alphabets (duties {1},{1,2}; data good/target<epoch/error; signer all/error; <=1 preemption); and the attester stacked on the real strategies first, best, majority over 2 scripted nodes with latencies 0/1s (1 run: full alphabet per node; 2 sequential runs: duties {1},{1,2}, full data alphabet per node; 2 overlapping runs for duty {1,2} in epoch 1, nodes good/target<epoch/error, schedules within 2 deviations from the default schedule). " +
 			"Histories respect the controller's discipline: no run for epoch x starts after a run for epoch >= x+2 completed; runs started at the same instant are <=1 epoch apart. " +
 			"Oracle over the whole history: per (validator, epoch of duty slot) <=1 sign request naming the validator's account; every sign request has the duty slot, target epoch = epoch(slot), source <= target; a run whose obtained data violates this makes no sign request. " +
